@@ -120,3 +120,60 @@ def main_wrapper(fn):
         code = 2
     sys.stdout.flush()
     os._exit(code)
+
+
+def union_members_mentioning(src: str, cls: str) -> bool:
+    """Does `src` annotate something as a real union (>= 2 members besides Unset) that includes class `cls`?"""
+    i = 0
+    while True:
+        i = src.find("Union[", i)
+        if i < 0:
+            return False
+        depth, j = 0, i + 5
+        while j < len(src):
+            if src[j] == "[":
+                depth += 1
+            elif src[j] == "]":
+                depth -= 1
+                if depth == 0:
+                    break
+            j += 1
+        inner = src[i + 6:j]
+        # split top-level members
+        parts, d, cur = [], 0, ""
+        for ch in inner:
+            if ch == "[":
+                d += 1
+            elif ch == "]":
+                d -= 1
+            if ch == "," and d == 0:
+                parts.append(cur.strip())
+                cur = ""
+            else:
+                cur += ch
+        if cur.strip():
+            parts.append(cur.strip())
+        real = [p for p in parts if p not in ("Unset",)]
+        if len(real) >= 2 and any(re.search(r"\b" + re.escape(cls) + r"\b", p) for p in real):
+            return True
+        i = i + 6
+
+
+def dangling_mechanism(unres: dict, tree: dict, removed: set, pkg_prefix_len: int = 1) -> str:
+    """Attribution of an unresolved import in a generated model: ':removed_by_cascade' iff some diagnostic lists a
+    cascade removal *and* the module that remains refers to the missing class through a union member (the path the
+    cascade does not follow); '' otherwise."""
+    if not removed:
+        return ""
+    mod = unres["module"].split(".", pkg_prefix_len)[-1].replace(".", "/") + ".py"
+    src = tree.get(mod)
+    if not isinstance(src, str):
+        # metadata flavours put the package one level down
+        cands = [k for k in tree if k.endswith("/" + mod)]
+        src = tree.get(cands[0]) if cands else None
+    if not isinstance(src, str):
+        return ""
+    for cls in unres.get("names") or []:
+        if union_members_mentioning(src, cls):
+            return ":removed_by_cascade"
+    return ""
